@@ -504,6 +504,24 @@ theorem early_inbound_is_dropped (w : World) (hk : w.hasKey = false) (hp : w.por
   · simp [addOrphan, World.setConn, inbound_wiring.1, inbound_wiring.2]
   · intro j hj; simp [addOrphan, World.setConn, hj]
 
+/-- the wiring of `Common._start_connector`, from the source: nothing but `addCallback`s hangs on the
+    endpoint's `connect()` Deferred — no errback that could turn a failure (of whatever class:
+    refused, DNS, an illegal hostname's `ValueError`, a Tor stream error) into a "success" -/
+theorem start_connector_wiring : Gen.Transit.start_connector_has_no_errback = true := by decide
+
+/-- … so a failing `connect()` of contender `k` is exactly that contender failing with that
+    error, for every error class; with `result_is_negotiated`, `connect()` can then only return a
+    connection that completed the handshake — never `None`, never because something failed. -/
+theorem connect_failure_is_contender_failure (w : World) (k : Nat) (e : Err)
+    (hk : phaseOf w k = some .connecting) : evConnFail w k e = some (fireFail w k e) := by
+  unfold evConnFail
+  simp [hk, start_connector_wiring]
+
+/-- the listener's stop hook is `lp.stopListening(); return res`: the outcome of `_listener_d` is
+    passed on in the same step, it does not wait for the port to finish closing (which a real
+    `tcp.Port` does a reactor turn later) — selection and reporting stay atomic -/
+theorem listener_stop_fire_and_forget : Gen.Transit.listener_stop_is_fire_and_forget = true := by decide
+
 /-- the deadline statement of the design: once the clock has reached `t0 + 2·TIMEOUT` (`t0` = the
     time `connect()` was called), `connect()` has completed — with a connection or with a failure —
     whatever else happened in between, in any order. -/
